@@ -237,10 +237,13 @@ def hcount(t, nb):
 
 def ref_formal_charge(t, labs):
     """Harness' own reading of the formal charge of an atom from its Sybyl
-    type and explicit bonds (octet rule: bonds minus neutral valence for
-    N/O/S/halogen; typed charged groups), or None = no opinion."""
+    type and explicit bonds: octet rule (sum of bond orders minus the neutral
+    valence) for N / O / S / halogens, typed charged groups (O.co2 = -1/2),
+    hypervalent S.o2 / S.o / P.3 neutral, carbon neutral.  None = the type
+    and bonds do not fix it (no opinion)."""
     deg = len(labs)
-    n2 = labs.count("2")
+    n1, n2, n3, nar = (labs.count(x) for x in LABELS)
+    bo = n1 + 2 * n2 + 3 * n3
     el = element(t)
     if t == "H":
         return 0 if deg == 1 else None
@@ -249,38 +252,22 @@ def ref_formal_charge(t, labs):
     if el == "C":
         normal = {"C.3": 4, "C.2": 3, "C.ar": 3, "C.1": 2}.get(t)
         return 0 if deg == normal else None
-    if t == "N.4":
-        return 1 if deg == 4 else None
-    if t == "N.3":
-        return {3: 0, 4: 1}.get(deg)
-    if t == "N.am":
-        return 0 if deg == 3 and n2 == 0 else None
-    if t == "N.pl3":
-        if deg == 3:
-            return 1 if n2 == 1 else (0 if n2 == 0 else None)
-        return None
-    if t == "N.2":
-        if n2 == 1:
-            return {2: 0, 3: 1}.get(deg)
-        return None
-    if t == "N.ar":
-        return 0 if deg == 2 else None
-    if t == "N.1":
-        return 0 if deg == 1 else None
-    if t in ("O.3", "S.3"):
-        return {1: -1, 2: 0, 3: 1}.get(deg)
-    if t in ("O.2", "S.2"):
-        return 0 if deg == 1 else None
     if t in ("S.o2", "S.o"):
         return 0
-    if t == "P.3":
-        if deg == 3 and n2 == 0:
+    if nar:
+        if t == "N.ar" and nar == 2 and deg == 2:
             return 0
-        if deg == 4:
-            return 0 if n2 == 1 else (1 if n2 == 0 else None)
         return None
+    if el == "N":
+        if t == "N.4" and bo != 4:
+            return None
+        return {2: -1, 3: 0, 4: 1}.get(bo)
+    if el in ("O", "S"):
+        return {1: -1, 2: 0, 3: 1}.get(bo)
+    if t == "P.3":
+        return {3: 0, 4: 1, 5: 0}.get(bo)
     if t in HALO:
-        return {0: -1, 1: 0}.get(deg)
+        return {0: -1, 1: 0}.get(bo)
     return None
 
 
